@@ -6,7 +6,7 @@ import random, itertools
 import scen_check, engine, scenario as S
 
 LEVEL = "proof"
-ENCODINGS = ["flat", "nested", "shared", "thread"]
+ENCODINGS = ["flat", "nested", "shared", "thread", "threadvar"]
 
 
 def graph_scenario(n, edges, enc, rng):
@@ -30,6 +30,22 @@ def graph_scenario(n, edges, enc, rng):
         cid[0] += 1
         s["checkpoints"].append({"id": cid[0], "alias": 500 + cid[0], "gate": rng.choice(S.GATES) if len(deps) > 1 else None, "deps": deps, "ctx": ctx})
         return cid[0]
+    if enc == "threadvar":
+        # all actions live in one thread group; the edge a -> b is the comparison "$variable <op> action b" of a's
+        # thread-bound checkpoint (thread variable on the LEFT, action on the right; half of them mirrored)
+        gcp = new_cp([cmp_(99)])
+        s["groups"].append({"id": 50, "name": 650, "ctx": None, "dep": ("checkpoint", gcp), "src": ("P", ("promise", 99), [4]), "var": 31})
+        for a in range(n):
+            s["actions"][a]["ctx"] = ("group", 50)
+            s["promises"][a]["ctx"] = ("group", 50)
+            bs = sorted(set(b for (x, b) in edges if x == a))
+            if bs:
+                deps = []
+                for b in bs:
+                    l, r = ("var", 50, []), ("act", ("action", b), [1])
+                    deps.append(("cmp", l, "EQUALS", r) if rng.random() < 0.6 else ("cmp", r, "DOES_NOT_EQUAL", l))
+                s["actions"][a]["dep"] = ("checkpoint", new_cp(deps, ("group", 50)))
+        return s
     succ = {a: sorted(set(b for (x, b) in edges if x == a)) for a in range(n)}
     indeg = {a: sum(1 for (x, b) in edges if b == a) for a in range(n)}
     shared = {}
@@ -137,3 +153,5 @@ def run(ctx):
         rule="every directed graph (cyclic or not, self loops included) over 1-3 actions and sampled graphs over 4-5 actions, each edge set rendered in the encodings flat / nested checkpoint references / shared checkpoints / implicit through thread-group membership, random declaration order and spelling; plus conformant random scenarios and cycle mutants (back edge through a new checkpoint, a nested reference or an added dependency; self dependency); distinct by (encoding, graph) or abstract scenario",
         trusted=["the set of encodings is chosen by the harness (import connections are covered by C16)"])
     renaming_histories(ctx, random.Random(ctx.seed + 7), 150 if ctx.tier == "quick" else 1500)
+    import imports_deep
+    imports_deep.c02_nested_cycle_family(ctx)       # cycles closed through a connection of a nested import entry
